@@ -21,8 +21,8 @@ func init() {
 		Rule: "one run = one generated application + history over 1..3 persisted sessions on the real db/fs (text or binary-key) over the simulated disk; for EVERY request the disk is snapshotted and the request is re-executed once per crash point: before every file-system micro-step (create, truncate, write, close, rename, remove, sync) and after every byte offset of every write (all offsets up to 384 bytes per write, beyond that the first 128, the last 128 and every 5th in between); " +
 			"after each crash the session record must equal a record that was complete before or after the interrupted save, other sessions' records must be untouched, and a fresh engine on the crashed disk must answer the next input like a twin continuing from the old or from the new record; " +
 			"non-trivial = at least one save that replaced an existing record was crashed at >= 20 points; distinct = distinct (old record hash, new record hash) pairs",
-		Runs:       map[string]int{"quick": 150, "thorough": 12000},
-		MaxSeconds: map[string]int{"quick": 45, "thorough": 1200},
+		Runs:       map[string]int{"quick": 150, "thorough": 4000},
+		MaxSeconds: map[string]int{"quick": 45, "thorough": 900},
 		Run:        runC12,
 		Assumptions: []string{
 			"crash model = process death (as the property states): every completed file-system call survives, an in-flight write keeps a prefix; loss of un-synced data (power failure) is stricter than the property and is not modelled",
